@@ -175,6 +175,11 @@ class Stats:
         }
 
 
+MUTATING_VERBS = {"addEdge", "addMultiedge", "addReciprocalEdge", "addReciprocalMultiedge", "removeEdge", "removeMultiedge",
+                  "setEdgeMultiplicity", "setEdgeWeight", "setEdgeLabel", "removeVertexFromEdgeList", "ctor", "loadtext",
+                  "loadtextnamed", "loadbin", "roundtriptext", "roundtripbin"}
+
+
 def _account(stats, meta, ops, model_lines):
     stats.evaluations += 1
     steps = core.split_steps(model_lines)
@@ -199,6 +204,12 @@ def _account(stats, meta, ops, model_lines):
             if key is not None:
                 blocks[key].append(l)
         ch = False
+        if not blocks and out and out[0].startswith("R ok"):
+            # quiet mode (no dump after the step): a successful mutator / constructor / loader, or a
+            # search / file routine that produced a result line, counts as a non-trivial step
+            verb = t[0]
+            if any(l.startswith(("P ", "F ")) for l in out) or verb in MUTATING_VERBS:
+                ch = True
         for k, b in blocks.items():
             if k in last and last[k] != b:
                 ch = True
